@@ -38,11 +38,26 @@ func driveKeyedFree(plan []M, out *Out, _ []string) {
 	const longWait, shortWait = 2 * time.Second, 20 * time.Millisecond
 	for si, sc := range plan {
 		var mu sync.Mutex
-		emit := func(e M) { mu.Lock(); out.Emit(e); mu.Unlock() }
+		emit := func(e M) { mu.Lock(); out.Emit(e); out.w.Flush(); mu.Unlock() } // flushed: the trace must survive a crash of the process
 		emit(M{"ev": "reset", "plan": si})
 		rw := str(sc, "kind") == "rw"
 		var km sync2.KeyedMutex[int]
 		var kr sync2.KeyedRWMutex[int]
+		// "warm": that many other keys have been locked and unlocked before (a keyed mutex that has seen thousands of keys)
+		for i, w := 0, num(sc, "warm"); i < w; i++ {
+			if rw {
+				if i%2 == 0 {
+					kr.LockKey(1000 + i)
+					kr.UnlockKey(1000 + i)
+				} else {
+					kr.RLockKey(1000 + i)
+					kr.RUnlockKey(1000 + i)
+				}
+			} else {
+				km.LockKey(1000 + i)
+				km.UnlockKey(1000 + i)
+			}
+		}
 		nt := num(sc, "threads")
 		if nt == 0 {
 			nt = 4
